@@ -372,13 +372,25 @@ pub fn guard_u8_u16() {
     let mut enc = RangeEncoder::<u8, u16, Vec<u8>>::from_raw_parts(v, st, sit);
     let twin = enc.clone().into_compressed().unwrap();
     let nw = enc.num_words();
-    let grp = group(2);
+    // independent assertion groups (kx::group): 0 size report, 1 what the view shows, 2 the encoder after the view is
+    // dropped, 3 the same through the temporary decoder()
+    let grp = group(4);
     if grp == 0 { assert!(nw == twin.len(), "C18: RangeEncoder::num_words differs from the length of what sealing returns"); return; }
-    {
+    if grp == 3 {
+        let d = enc.decoder();
+        let (_cur, dst, point) = d.into_raw_parts();
+        let mut x: u16 = 0; let mut i = npre; while i < npre + 2 { x = (x << 8) | (if i < twin.len() { twin[i] as u16 } else { 0 }); i += 1; }
+        let mut x0: u16 = 0; let mut i = 0; while i < 2 { x0 = (x0 << 8) | (if i < twin.len() { twin[i] as u16 } else { 0 }); i += 1; }
+        let _ = x;
+        assert!(point == x0 && dst.lower() == 0 && dst.range().get() == u16::MAX, "C08: temporary decoder does not start at the beginning of what finishing the encoder would return");
+    } else {
         let g = enc.get_compressed();
-        assert!(g.len() == twin.len(), "C08: range encoder view has a different length than finishing the encoder would return");
-        let mut i = 0; while i < twin.len() { assert!(g[i] == twin[i], "C08: range encoder view differs from what finishing the encoder would return"); i += 1; }
+        if grp == 1 {
+            assert!(g.len() == twin.len(), "C08: range encoder view has a different length than finishing the encoder would return");
+            let mut i = 0; while i < twin.len() { assert!(g[i] == twin[i], "C08: range encoder view differs from what finishing the encoder would return"); i += 1; }
+        }
     }
+    if grp == 1 { return; }
     let (b, st1, sit1) = enc.into_raw_parts();
     assert!(st1 == st && sit1 == sit, "C08/C02/C06: dropping the view changed the range encoder's state or situation");
     assert!(b.len() == npre, "C08/C02/C06: dropping the view did not remove exactly the seal words");
